@@ -45,6 +45,10 @@ impl NodeRef {
 
 const K: usize = 4;
 
+/// Verification hook (feature `llg_verif`): block size of the repetition factorisation.
+#[cfg(feature = "llg_verif")]
+pub const VERIF_REPEAT_K: usize = K;
+
 pub struct GrammarBuilder {
     pub(crate) grammar: Grammar,
     // this is only used for validation of NodeRef's
